@@ -239,6 +239,8 @@ def run_job_inner(job: dict) -> dict:
         obs["task_before"] = task_view(task)
         if job.get("pre_draws"):
             np.random.random(job["pre_draws"])
+            import random as _stdrandom                    # whatever else the process drew from before: none of it may reach a seeded run
+            for _ in range(job["pre_draws"]): _stdrandom.random()
         snaps = None
         if job.get("snapshots"):
             import copy
